@@ -367,7 +367,23 @@ def translate_loop_hh(src):
     if not re.search(r"LoopSIMD\s*\(\s*Simd::Scalar<T>\s+i\s*\)\s*:\s*LoopSIMD\(\)\s*\{\s*this->fill\(i\);\s*\}", src):
         raise TranslateError("broadcasting constructor changed")
 
-    return loops, reds, invocations, inner.pop(), outer.pop()
+    # type-level functions: Scalar / Rebind of a LoopSIMD (lane count: checked above)
+    ns = nospace(src)
+    m = re.search(r"structScalarType<LoopSIMD<T,S,A>>\{usingtype=([^;]+);\};", ns)
+    if not m:
+        raise TranslateError("ScalarType<LoopSIMD> not found")
+    scal = {"Simd::Scalar<T>": "scalarOf t", "T": "t"}.get(m.group(1))
+    if scal is None:
+        raise TranslateError("ScalarType<LoopSIMD>::type outside the grammar: %r" % m.group(1))
+    m = re.search(r"structRebindType<U,LoopSIMD<T,S,A>>\{usingtype=LoopSIMD<(.+?),S,A>;\};", ns)
+    if not m:
+        raise TranslateError("RebindType<U, LoopSIMD> not found or outside the grammar")
+    reb = {"Simd::Rebind<U,T>": "rebind u t", "U": "u", "T": "t"}.get(m.group(1))
+    if reb is None:
+        raise TranslateError("RebindType<U, LoopSIMD>::type outside the grammar: %r" % m.group(1))
+    traits = {"scalar_loop": scal, "rebind_loop": reb}
+
+    return loops, reds, invocations, inner.pop(), outer.pop(), traits
 
 
 # ------------------------------------------------------------------------------------------------
@@ -403,7 +419,67 @@ def translate_standard(src):
     m = re.search(r"V\s+lane\s*\(\s*ADLTag<2>\s*,\s*std::size_t\s*,\s*V\s+v\s*\)\s*\{\s*return\s+v\s*;\s*\}", src)
     if not m:
         raise TranslateError("standard.hh: lane(l, scalar) changed")
+    # type-level functions of the scalar: Scalar<V> = V, Rebind<S, V> = S, lanes<V>() = 1
+    ns = nospace(src)
+    if "template<classV,class>structScalarType{usingtype=V;};" not in ns:
+        raise TranslateError("standard.hh: ScalarType changed")
+    if "template<classS,class,class>structRebindType{usingtype=S;};" not in ns:
+        raise TranslateError("standard.hh: RebindType changed")
+    m = re.search(r"template<class,class>structLaneCount:publicindex_constant<(\d+)>\{\};", ns)
+    if not m:
+        raise TranslateError("standard.hh: LaneCount changed")
+    res["lanes"] = int(m.group(1))
     return res
+
+
+def translate_defaults(src):
+    """defaults.hh: the default implementations every SIMD type inherits unless it overloads them"""
+    ns = nospace(strip_comments(src))
+    d = {}
+    if "boolanyTrue(ADLTag<0>,constMask&mask)=delete;" not in ns:
+        raise TranslateError("defaults.hh: anyTrue is no longer the one mandatory reduction")
+    # allTrue / anyFalse / allFalse in terms of anyTrue:  [!] Dune::Simd::anyTrue([!] mask)
+    for fn in ("allTrue", "anyFalse", "allFalse"):
+        m = re.search(r"bool%s\(ADLTag<0>,constMask&mask\)\{return(!?)Dune::Simd::anyTrue\((!?)mask\);\}" % fn, ns)
+        if not m:
+            raise TranslateError("defaults.hh: default %s outside the grammar" % fn)
+        d[fn] = (m.group(1) == "!", m.group(2) == "!")
+    # horizontal max / min: m = lane(K, v); for l = LO .. lanes(v): if (m < lane(l, v) | lane(l, v) < m) m = lane(l, v)
+    for fn in ("max", "min"):
+        m = re.search(r"auto%s\(ADLTag<0>,constV&v\)\{Scalar<V>m=Simd::lane\((\d+),v\);"
+                      r"for\(std::size_tl=(\d+);l<Simd::lanes\(v\)(?:-(\d+))?;\+\+l\)"
+                      r"if\((m<Simd::lane\(l,v\)|Simd::lane\(l,v\)<m)\)m=Simd::lane\(l,v\);returnm;\}" % fn, ns)
+        if not m:
+            raise TranslateError("defaults.hh: horizontal %s outside the grammar" % fn)
+        d["h" + fn] = (int(m.group(1)), int(m.group(2)), int(m.group(3) or 0), m.group(4).startswith("m<"))
+    # binary max / min: std::max(v1, v2) / std::min(v1, v2) found by ADL
+    for fn in ("max", "min"):
+        if "auto%s(ADLTag<0>,constV&v1,constV&v2){usingstd::%s;return%s(v1,v2);}" % (fn, fn, fn) not in ns:
+            raise TranslateError("defaults.hh: binary %s changed" % fn)
+    # mask(v): identity on masks, otherwise v OP Copy(Scalar<Copy>(0))
+    if "Mask<V>mask(ADLTag<0,std::is_same<V,Mask<V>>::value>,constV&v){returnv;}" not in ns:
+        raise TranslateError("defaults.hh: mask of a mask changed")
+    m = re.search(r"automask\(ADLTag<0,!std::is_same<V,Mask<V>>::value>,constV&v\)\{usingCopy=AutonomousValue<V>;"
+                  r"returnv(==|!=|<=|>=|<|>)Copy\(Scalar<Copy>\(0\)\);\}", ns)
+    if not m:
+        raise TranslateError("defaults.hh: mask(v) outside the grammar")
+    d["mask"] = SYMBOL_NAMES[m.group(1)]
+    for fn in ("maskOr", "maskAnd"):
+        m = re.search(r"auto%s\(ADLTag<0>,constV1&v1,constV2&v2\)\{returnSimd::mask\(v1\)(\|\||&&)Simd::mask\(v2\);\}" % fn, ns)
+        if not m:
+            raise TranslateError("defaults.hh: %s outside the grammar" % fn)
+        d[fn] = SYMBOL_NAMES[m.group(1)]
+    # implCast: identity for the same type, otherwise lane by lane into a zero-initialised result
+    if "constexprVimplCast(ADLTag<0>,MetaType<V>,constV&u){returnu;}" not in ns:
+        raise TranslateError("defaults.hh: implCast to the same type changed")
+    m = re.search(r"constexprVimplCast\(ADLTag<0>,MetaType<V>,constU&u\)\{Vresult\(Simd::Scalar<V>\(0\)\);"
+                  r"for\(autol:range\(Simd::lanes\(u\)\)\)Simd::lane\(([^,]+),result\)=Simd::lane\(([^,]+),u\);returnresult;\}", ns)
+    if not m:
+        raise TranslateError("defaults.hh: implCast outside the grammar")
+    d["implCast"] = (ix_expr(m.group(1), "l"), ix_expr(m.group(2), "l"))
+    if "autobroadcast(ADLTag<0>,MetaType<V>,Ss){returnV(Simd::Scalar<V>(s));}" not in ns:
+        raise TranslateError("defaults.hh: broadcast changed")
+    return d
 
 
 def translate_spec(md):
@@ -460,15 +536,16 @@ def inductive(name, ctors, symbols):
 
 def translate(repo):
     rd = lambda p: open(os.path.join(repo, p)).read()
-    loops, reds, inv, lane_inner, lane_outer = translate_loop_hh(rd("dune/common/simd/loop.hh"))
+    loops, reds, inv, lane_inner, lane_outer, traits = translate_loop_hh(rd("dune/common/simd/loop.hh"))
     scalar_cond = translate_interface(rd("dune/common/simd/interface.hh"))
     scalar_reds = translate_standard(rd("dune/common/simd/standard.hh"))
+    dflt = translate_defaults(rd("dune/common/simd/defaults.hh"))
     spec = translate_spec(rd("dune/common/simd/DESIGN.md"))
 
     def syms(macro):
         return [a[0] for a in inv["DUNE_SIMD_LOOP_" + macro]]
 
-    g = ["-- GENERATED by tools/translators/tr_c09.py from dune/common/simd/{loop,interface,standard}.hh and",
+    g = ["-- GENERATED by tools/translators/tr_c09.py from dune/common/simd/{loop,interface,standard,defaults}.hh and",
          "-- dune/common/simd/DESIGN.md -- do not edit",
          "namespace DV.C09.Gen",
          "",
@@ -506,6 +583,14 @@ def translate(repo):
          "  ix : Ix",
          "  deriving DecidableEq, Repr",
          ""]
+    g.append("/-- names of the comparison / logic operators (independent of which of them loop.hh defines) -/")
+    g.append("inductive CmpOpName where")
+    g.append("  | lt | gt | le | ge | eq | ne")
+    g.append("  deriving DecidableEq, Repr")
+    g.append("inductive BoolOpName where")
+    g.append("  | land | lor")
+    g.append("  deriving DecidableEq, Repr")
+    g.append("")
     for name in sorted(loops):
         g.append("def %s : Loop := %s" % (name, loops[name]))
     g.append("")
@@ -524,6 +609,53 @@ def translate(repo):
     g.append("def laneInner (l n : Nat) : Nat := %s" % lane_inner)
     g.append("def laneOuter (l n : Nat) : Nat := %s" % lane_outer)
     g.append("def laneCount (S n : Nat) : Nat := S * n")
+    g.append("")
+    # type-level functions (loop.hh / standard.hh): Simd::Scalar, Simd::Rebind, Simd::lanes
+    g.append("/-- a type of the abstraction layer: a built-in scalar (by name) or `LoopSIMD<inner, S>` -/")
+    g.append("inductive Ty where")
+    g.append("  | scalar (name : String) | loop (inner : Ty) (S : Nat)")
+    g.append("  deriving DecidableEq, Repr")
+    g.append("/-- `Simd::Scalar<V>` (standard.hh: `V`; loop.hh: the specialisation for LoopSIMD) -/")
+    g.append("def Ty.scalarOf : Ty → Ty")
+    g.append("  | .scalar s => .scalar s")
+    g.append("  | .loop t _ => %s" % traits["scalar_loop"].replace("scalarOf t", "Ty.scalarOf t"))
+    g.append("/-- `Simd::Rebind<U, V>` (standard.hh: `U`; loop.hh: the specialisation for LoopSIMD) -/")
+    g.append("def Ty.rebind (u : Ty) : Ty → Ty")
+    g.append("  | .scalar _ => u")
+    g.append("  | .loop t S => .loop (%s) S" % traits["rebind_loop"].replace("rebind u t", "Ty.rebind u t"))
+    g.append("/-- `Simd::lanes<V>()` -/")
+    g.append("def Ty.lanes : Ty → Nat")
+    g.append("  | .scalar _ => %d" % scalar_reds["lanes"])
+    g.append("  | .loop t S => laneCount S (Ty.lanes t)")
+    g.append("")
+    # defaults.hh
+    g.append("/-- defaults.hh: a reduction expressed through the mandatory `anyTrue`: `[!] anyTrue([!] mask)` -/")
+    g.append("structure DefRed where")
+    g.append("  outerNot : Bool")
+    g.append("  innerNot : Bool")
+    g.append("  deriving DecidableEq, Repr")
+    for fn in ("allTrue", "anyFalse", "allFalse"):
+        g.append("def defred_%s : DefRed := { outerNot := %s, innerNot := %s }" % (
+            fn, "true" if dflt[fn][0] else "false", "true" if dflt[fn][1] else "false"))
+    g.append("/-- defaults.hh: `m = lane(init, v); for (l = lo; l < lanes(v) - hiMinus; ++l) if (TEST) m = lane(l, v);` with")
+    g.append("    TEST = `m < lane(l, v)` (`accLeft`) or `lane(l, v) < m` -/")
+    g.append("structure HLoop where")
+    g.append("  init : Nat")
+    g.append("  lo : Nat")
+    g.append("  hiMinus : Nat")
+    g.append("  accLeft : Bool")
+    g.append("  deriving DecidableEq, Repr")
+    for fn in ("max", "min"):
+        i0, lo, hm, left = dflt["h" + fn]
+        g.append("def hloop_%s : HLoop := { init := %d, lo := %d, hiMinus := %d, accLeft := %s }" % (
+            fn, i0, lo, hm, "true" if left else "false"))
+    g.append("/-- defaults.hh: `mask(v) = v OP 0`, `maskOr(v1, v2) = mask(v1) OP mask(v2)`, `maskAnd` likewise -/")
+    g.append("def maskCmp : CmpOpName := .%s" % dflt["mask"])
+    g.append("def maskOrOp : BoolOpName := .%s" % dflt["maskOr"])
+    g.append("def maskAndOp : BoolOpName := .%s" % dflt["maskAnd"])
+    g.append("/-- defaults.hh: `implCast`: `for l in range(lanes(u)): lane(DST, result) = lane(SRC, u)` on a zero-initialised result -/")
+    g.append("def implCastDst : Ix := %s" % dflt["implCast"][0])
+    g.append("def implCastSrc : Ix := %s" % dflt["implCast"][1])
     g.append("")
     # operator lists
     un = syms("UNARY_OP")
